@@ -21,7 +21,7 @@ ID = "C16"
 LEVEL = "fault_enumeration"
 RULE = (
     "case = (real child process behaviour: well-behaved echo server, exits after k messages for k=0..3, ignores SIGTERM after signalling readiness, never reads stdin, floods stdout, closes stdout, "
-    "closes stdin, slow start, ignores SIGTERM while flooding / while never reading; or a command that cannot be started: missing path, directory, non-executable file) x (exit path: normal, exception in body, outer CancelScope.cancel(), move_on_after around the "
+    "closes stdin, slow start, ignores SIGTERM while flooding / while never reading, floods server-to-client requests; or a command that cannot be started: missing path, directory, non-executable file) x (exit path: normal, exception in body, outer CancelScope.cancel(), move_on_after around the "
     "whole context, cancellation arriving while the context is already shutting down, a 2..100 ms timeout around the context that fires while it is being entered) x (moment: before the first message, request in flight, after a response); the product is enumerated (quick: every (behaviour, exit path) pair with rotating moments; thorough: full product x 3 jitters); "
     "measured by the harness: context exit duration <= 2 x 1 s grace + 3 s slack, no /proc entry (running or zombie) for the child at the very moment the context has been left and again after a <=1 s settle, open-fd count equal to the count before entry, a request "
     "pending when the child dies ends in an exception, an unstartable command makes entering raise; non-trivial = behaviour other than well-behaved or exit path other than normal; distinct = distinct cell"
@@ -59,6 +59,15 @@ if beh == "ignore_sigterm+flood":
 if beh == "never_reads" or beh == "ignore_sigterm+never_reads":
     while True:
         time.sleep(0.2)
+if beh == "flood_requests":
+    # server-to-client requests (every message bears an id) as fast as the pipe takes them; never reads
+    i = 0
+    try:
+        while True:
+            out({"jsonrpc": "2.0", "id": i, "method": "ping"})
+            i += 1
+    except BaseException:
+        os._exit(0)
 if beh == "flood":
     i = 0
     try:
@@ -101,7 +110,7 @@ if beh == "ignore_sigterm":
 '''
 
 BEHAVIOURS = ["well_behaved", "exit_at_0", "exit_at_1", "exit_at_2", "exit_at_3", "ignore_sigterm", "never_reads", "flood", "close_stdout", "close_stdin", "slow_start",
-              "ignore_sigterm+flood", "ignore_sigterm+never_reads"]
+              "ignore_sigterm+flood", "ignore_sigterm+never_reads", "flood_requests"]
 SPAWN_FAIL = ["missing_path", "directory", "not_executable"]
 EXITS = ["normal", "exception", "cancel", "move_on_after", "cancel_during_exit", "timeout_during_enter"]
 ENTER_DEADLINES = [0.002, 0.01, 0.03, 0.06, 0.1]  # a timeout around the context that fires while (or just after) the child is being started
@@ -174,7 +183,7 @@ def run_cell(case: Dict[str, Any]) -> Dict[str, Any]:
 
     beh, exit_path, moment = case["child"], case["exit"], case.get("moment", "before_first")
     d = scratch()
-    marker = f"vpbtmark{os.getpid()}x{int(time.time() * 1e6) % 10**9}"
+    marker = case.get("_marker") or f"vpbtmark{os.getpid()}x{int(time.time() * 1e6) % 10**9}"
     obs: Dict[str, Any] = {"marker": marker, "entered": False, "enter_exc": None, "pid": None, "pending": None, "first": None}
 
     if beh in SPAWN_FAIL:
@@ -303,10 +312,71 @@ def run_cell(case: Dict[str, Any]) -> Dict[str, Any]:
     return obs
 
 
+HANG_LIMIT = 40.0  # wall seconds after which a cell that has not come back is declared hung
+
+
+def run_cell_guarded(case: Dict[str, Any]) -> Dict[str, Any]:
+    """run_cell in a forked child of its own: a shutdown that never returns (and cannot be cancelled) must not take
+    the whole job with it"""
+    import json as _json
+    import select
+
+    marker = f"vpbtmark{os.getpid()}x{int(time.time() * 1e6) % 10**9}"
+    rfd, wfd = os.pipe()
+    pid = os.fork()
+    if pid == 0:
+        code = 0
+        try:
+            os.close(rfd)
+            obs = run_cell(dict(case, _marker=marker))
+            data = _json.dumps(obs, default=repr).encode()
+            while data:
+                n = os.write(wfd, data)
+                data = data[n:]
+        except BaseException:  # noqa
+            code = 3
+        finally:
+            os._exit(code)
+    os.close(wfd)
+    buf = b""
+    deadline = time.time() + HANG_LIMIT
+    hung = False
+    while True:
+        left = deadline - time.time()
+        if left <= 0:
+            hung = True
+            break
+        r, _, _ = select.select([rfd], [], [], min(left, 1.0))
+        if r:
+            chunk = os.read(rfd, 65536)
+            if not chunk:
+                break
+            buf += chunk
+    os.close(rfd)
+    if hung:
+        for p_ in [pid] + find_marker(marker):
+            try:
+                os.kill(p_, signal.SIGKILL)
+            except Exception:
+                pass
+    try:
+        os.waitpid(pid, 0)
+    except Exception:
+        pass
+    if hung:
+        return {"hung": True, "marker": marker, "entered": True, "pid": None}
+    try:
+        return _json.loads(buf.decode())
+    except Exception:
+        return {"cell_crashed": True, "marker": marker, "entered": False, "pid": None, "run_exc": "the cell's process ended without a report"}
+
+
 def judge(case: Dict[str, Any], obs: Dict[str, Any]) -> List[Tuple[str, str, str]]:
     """-> [(signature, detail, class)] where class in {timing, process, logic}"""
     beh, exit_path, moment = case["child"], case["exit"], case.get("moment", "before_first")
     f: List[Tuple[str, str, str]] = []
+    if obs.get("hung"):
+        return [("leaving-the-context-hangs", f"{beh}/{exit_path}/{moment}: the cell had not finished {HANG_LIMIT:.0f}s later (bound for the exit itself: {GRACE_BOUND}s)", "process")]
     if beh in SPAWN_FAIL:
         if obs["entered"]:
             f.append(("unstartable-command-entered-the-context", f"{beh}", "logic"))
@@ -362,7 +432,7 @@ def check(case: Dict[str, Any]) -> Outcome:
     beh, exit_path = case["child"], case["exit"]
     out.nontrivial = beh != "well_behaved" or exit_path != "normal"
     out.classes = (f"child:{beh}", f"exit:{exit_path}", f"moment:{case.get('moment', 'before_first')}")
-    obs = run_cell(case)
+    obs = run_cell_guarded(case)
     fails = judge(case, obs)
     if not fails:
         return out
@@ -370,7 +440,7 @@ def check(case: Dict[str, Any]) -> Outcome:
     confirmed: Dict[str, List[str]] = {}
     runs = [fails]
     for _ in range(2):
-        runs.append(judge(case, run_cell(case)))
+        runs.append(judge(case, run_cell_guarded(case)))
     for sig, detail, cls in fails:
         hits = sum(1 for r in runs if any(s == sig for s, _, _ in r))
         need = 3 if cls == "timing" else 2
